@@ -787,6 +787,20 @@ private:
         return iterator(*this, old_size, element_address);
     }
 
+    // An element constructor threw and the rest of the claimed range [idx, end_idx) is abandoned. The segments that start
+    // inside that rest were this call's to allocate and other threads wait for them: mark the ones that are still missing
+    // as failed, so that later accesses throw instead of waiting forever.
+    void mark_abandoned_segments( segment_table_type table, size_type idx, size_type end_idx ) {
+        segment_index_type first_block = this->my_first_block.load(std::memory_order_relaxed);
+        segment_index_type last = this->segment_index_of(end_idx - 1);
+        for (segment_index_type seg = this->segment_index_of(idx) + 1; seg <= last; ++seg) {
+            if (seg >= first_block) {
+                segment_type expected = nullptr;
+                table[seg].compare_exchange_strong(expected, this->segment_allocation_failure_tag);
+            }
+        }
+    }
+
     template <typename... Args>
     void internal_loop_construct( segment_table_type table, size_type start_idx, size_type end_idx, const Args&... args ) {
         static_assert(sizeof...(Args) < 2, "Too many parameters");
@@ -795,6 +809,7 @@ private:
             // try_call API is not convenient here due to broken
             // variadic capture on GCC 4.8.5
             auto value_guard = make_raii_guard( [&] {
+                mark_abandoned_segments(table, idx, end_idx);
                 segment_index_type last_allocated_segment = this->find_last_allocated_segment(table);
                 size_type segment_size = this->segment_size(last_allocated_segment);
                 end_idx = end_idx < segment_size ? end_idx : segment_size;
@@ -818,6 +833,7 @@ private:
             try_call( [&] {
                 segment_table_allocator_traits::construct(base_type::get_allocator(), element_address, *first++);
             } ).on_exception( [&] {
+                mark_abandoned_segments(table, idx, end_idx);
                 segment_index_type last_allocated_segment = this->find_last_allocated_segment(table);
                 size_type segment_size = this->segment_size(last_allocated_segment);
                 end_idx = end_idx < segment_size ? end_idx : segment_size;
@@ -885,7 +901,14 @@ private:
         if (end_segment >= this->pointers_per_embedded_table &&
             this->get_table() == this->my_embedded_table)
         {
-            spin_wait_while_eq(this->my_segment_table, this->my_embedded_table);
+            // The thread that extends the table only raises the flag if the allocation fails
+            atomic_backoff backoff;
+            while (this->get_table() == this->my_embedded_table) {
+                if (this->my_segment_table_allocation_failed.load(std::memory_order_relaxed)) {
+                    throw_exception(exception_id::bad_alloc);
+                }
+                backoff.pause();
+            }
         }
 
         for (segment_index_type seg_idx = 0; seg_idx <= end_segment; ++seg_idx) {
